@@ -28,6 +28,15 @@ static void run_root(Root& root, int const* data, idx N, std::vector<idx> const&
 		if(!m.has_empty_dim() && m.num_elements() >= 2) { ++nontrivial; }
 		mc::R.outcome(key_of(m));
 		if(f.bad) { report(m, h, f.oracle, f.detail); return false; }
+		// the index bases produced by reindexed / blocked / stenciled ARE specified by their arguments (m carries the REPORTED bases of non-empty dimensions)
+		if(!h.empty()) {
+			Op const& o = h.back(); std::vector<idx> want;
+			if(o.k == REINDEXED || o.k == BLOCKED || o.k == STENCILED) { want = {o.a}; }
+			if(o.k == REINDEXEDN) { want = {o.a, o.b}; if(o.nargs >= 3) { want.push_back(o.c); } }
+			for(std::size_t j = 0; j < want.size() && j < m.d.size(); ++j) {
+				if(m.d[j].size > 0 && m.d[j].first != want[j]) { report(m, h, "index-base", "dimension " + std::to_string(j) + " starts at " + std::to_string(m.d[j].first) + " after " + op_str(o) + ", expected " + std::to_string(want[j])); return false; }
+			}
+		}
 		mc::cur_phase("iterators");
 		auto bad = il::check_iters(v, m, data);
 		if(!bad.empty()) { report(m, h, "iteration:" + bad[0].fam + ":" + bad[0].law, bad[0].detail); return false; }
